@@ -500,10 +500,13 @@ fn collect_despawns(
     for (client_entity, mut message, .., mut ticks, visibility) in clients {
         if let Some(mut visibility) = visibility {
             for entity in visibility.drain_lost() {
-                trace!("writing visibility lost for `{entity}` for client `{client_entity}`");
-                let entity_range = serialized.write_entity(entity)?;
-                message.add_despawn(entity_range);
-                ticks.remove_entity(entity);
+                // The client has only entities that were sent to it. A despawn for an entity that was
+                // hidden before its first replication would hit a client entity pre-mapped to it.
+                if ticks.remove_entity(entity) {
+                    trace!("writing visibility lost for `{entity}` for client `{client_entity}`");
+                    let entity_range = serialized.write_entity(entity)?;
+                    message.add_despawn(entity_range);
+                }
             }
         }
     }
